@@ -1,4 +1,5 @@
 import Tw.Model.ServerBrowse
+import Tw.Model.ServerBrowseEnc
 import Tw.Proofs.Packer
 import Tw.Proofs.ServerBrowse
 import Tw.Proofs.ServerBrowseMerge
@@ -11,8 +12,6 @@ open Tw.Gen.Browse
 open Tw.Packer (readString readInt writeInt inI32)
 
 /-! ### strings -/
-
-def putStr (s rest : List UInt8) : List UInt8 := s ++ 0 :: rest
 
 theorem readString_putStr : ∀ (s rest : List UInt8), (∀ b ∈ s, b ≠ 0) → readString (putStr s rest) = some (s, rest)
   | [], rest, _ => by simp [putStr, readString]
@@ -49,17 +48,10 @@ theorem utf8Valid_ascii : ∀ (s : List UInt8), (∀ b ∈ s, b.toNat < 128) →
     have := h b List.mem_cons_self
     simp [this, utf8Valid_ascii s (fun x hx => h x (List.mem_cons_of_mem _ hx))]
 
-def digit (n : Nat) : UInt8 := UInt8.ofNat (48 + n % 10)
-
 theorem digit_toNat (n : Nat) : (digit n).toNat = 48 + n % 10 := by
   unfold digit
   rw [UInt8.toNat_ofNat']
   omega
-
-/-- decimal digits of `n` (fuel `> n` suffices) -/
-def natDigits : Nat → Nat → List UInt8
-  | 0, _ => []
-  | f + 1, n => if n < 10 then [digit n] else natDigits f (n / 10) ++ [digit n]
 
 theorem digitsVal_append : ∀ (l r : List UInt8) (acc : Nat),
     digitsVal (l ++ r) acc = (digitsVal l acc).bind (digitsVal r)
@@ -98,10 +90,6 @@ theorem natDigits_spec : ∀ (f n : Nat), n < f →
         · exact ih.2.2 b hb
         · simp only [List.mem_singleton] at hb
           rw [hb, digit_toNat]; omega
-
-/-- decimal text of an `i32` as a server prints it (`%d`) -/
-def decimal (v : Int) : List UInt8 :=
-  if v < 0 then 45 :: natDigits (v.natAbs + 1) v.natAbs else natDigits (v.toNat + 1) v.toNat
 
 theorem decimal_bytes (v : Int) : ∀ b ∈ decimal v, b.toNat < 128 ∧ b ≠ 0 := by
   intro b hb
@@ -157,12 +145,6 @@ theorem readIntV5_decimal (v : Int) (h : inI32 v) (rest : List UInt8) :
   unfold readIntV5
   rw [readString_putStr _ _ (fun b hb => (decimal_bytes v b hb).2)]
   simp [utf8Valid_ascii _ (fun b hb => (decimal_bytes v b hb).1), parseI32_decimal v h]
-
-/-- integer field of kind `k`: varint for 0.7, decimal text + NUL otherwise -/
-def putInt (k : InfoKind) (v : Int) (rest : List UInt8) : List UInt8 :=
-  match k with
-  | .info7 => writeInt v ++ rest
-  | _ => putStr (decimal v) rest
 
 theorem reader_putInt (k : InfoKind) (v : Int) (h : inI32 v) (rest : List UInt8) :
     k.reader (putInt k v rest) = some (v, rest) := by
@@ -242,16 +224,6 @@ structure ClientOk (k : InfoKind) (c : ClientInfo) : Prop where
       (if k.received.version.hasFullClientFlags = true then inI32 c.flags else (c.flags = 0 ∨ c.flags = 1))
   plain : k.received.version.hasExtendedPlayerInfo = false → c.clan = [] ∧ c.country = -1 ∧ c.flags = 0
 
-def encClient (k : InfoKind) (c : ClientInfo) (rest : List UInt8) : List UInt8 :=
-  let ver := k.received.version
-  putStr c.name
-    ((if ver.hasExtendedPlayerInfo then fun r => putStr c.clan (putInt k c.country r) else id)
-      (putInt k c.score
-        ((if ver.hasExtendedPlayerInfo then
-            (if ver.hasFullClientFlags then putInt k c.flags else putInt k (if c.flags = 1 then 0 else 1))
-          else id)
-          ((if ver.hasExtraInfo then putStr [] else id) rest))))
-
 theorem readClient_encClient (k : InfoKind) (c : ClientInfo) (h : ClientOk k c) (rest : List UInt8) :
     readClient k.reader k.received.version (encClient k c rest) = .client c rest := by
   obtain ⟨hname, hscore, hext, hplain⟩ := h
@@ -288,10 +260,6 @@ theorem readClient_encClient (k : InfoKind) (c : ClientInfo) (h : ClientOk k c) 
     | (rcases hflags with rfl | rfl <;>
        simp [Reader.andThen, Reader.ret, hs, hc, hco, he, i0, i1, truncated_good hname, truncated_good hclan,
          CLIENTINFO_FLAG_SPECTATOR])
-
-def encClients (k : InfoKind) : List ClientInfo → List UInt8 → List UInt8
-  | [], rest => rest
-  | c :: cs, rest => encClient k c (encClients k cs rest)
 
 theorem readClient_nil (ri : Reader Int) (ver : Version) : readClient ri ver [] = .stop := by
   simp [readClient, readStr, readString]
@@ -383,9 +351,6 @@ theorem encClients_length (k : InfoKind) : ∀ (cs : List ClientInfo), cs.length
 @[simp] theorem maxClients_v6Ex : Version.v6Ex.maxClients = none := by decide
 @[simp] theorem maxClients_v7 : Version.v7.maxClients = some MAX_CLIENTS_7 := by decide
 
-/-- `i32` value a server sends for a `u32` crc -/
-def crcWire (c : Nat) : Int := if c < 2 ^ 31 then (c : Int) else (c : Int) - 2 ^ 32
-
 theorem crcWire_inI32 {c : Nat} (h : c < 2 ^ 32) : inI32 (crcWire c) := by
   unfold crcWire inI32; split <;> constructor <;> omega
 
@@ -416,21 +381,6 @@ structure HeadOk (k : InfoKind) (i : ServerInfo) (offset : Nat) : Prop where
   plainCounts : k.received.version.hasExtendedPlayerInfo = false →
     i.numClients = i.numPlayers ∧ i.maxClients = i.maxPlayers
   offset : if k.received.version.hasOffset = true then offset < 2 ^ 31 else offset = 0
-
-/-- the fields between the token and the clients of a normal info, in wire order -/
-def encHead (k : InfoKind) (i : ServerInfo) (offset : Nat) (rest : List UInt8) : List UInt8 :=
-  let ver := k.received.version
-  putStr i.version <| putStr i.name <|
-  (if ver.hasHostname then putStr (i.hostname.getD []) else id) <|
-  putStr i.map <|
-  (if ver.hasExtendedMapInfo then
-      fun r => putInt k (crcWire (i.mapCrc.getD 0)) (putInt k ((i.mapSize.getD 0 : Nat) : Int) r) else id) <|
-  putStr i.gameType <| putInt k i.flags <|
-  (if ver.hasProgression then putInt k (i.progression.getD 0) else id) <|
-  (if ver.hasSkillLevel then putInt k (i.skillLevel.getD 0) else id) <|
-  putInt k i.numPlayers <| putInt k i.maxPlayers <|
-  (if ver.hasExtendedPlayerInfo then fun r => putInt k i.numClients (putInt k i.maxClients r) else id) <|
-  (if ver.hasOffset then putInt k (offset : Int) else id) rest
 
 set_option linter.unusedSimpArgs false in
 set_option maxHeartbeats 1000000 in
@@ -521,22 +471,6 @@ theorem parseHeadNormal_encHead (k : InfoKind) (hk : k ≠ .info6ExMore) (i : Se
     try (rw [if_neg]; all_goals first | rfl | omega)
 
 /-! ### whole datagram payloads -/
-
-/-- the `received` mask the parser gives a packet of kind `k` with `n` clients from slot `offset` -/
-def maskFor (k : InfoKind) (offset n : Nat) : Nat :=
-  match k with
-  | .info6Ex => 1
-  | .info664 => rangeMask offset n
-  | _ => 0
-
-/-- payload of a normal (non-`iex+`) info packet of kind `k` -/
-def encInfo (k : InfoKind) (i : ServerInfo) (offset : Nat) : List UInt8 :=
-  putInt k i.token
-    (encHead k i offset ((if k.received.version.hasExtraInfo then putStr [] else id) (encClients k i.clients [])))
-
-/-- payload of an `iex+` packet -/
-def encMore (token : Int) (no : Nat) (cs : List ClientInfo) : List UInt8 :=
-  putInt .info6ExMore token (putInt .info6ExMore (no : Int) (putStr [] (encClients .info6ExMore cs [])))
 
 theorem serverInfo_eta (i : ServerInfo) : { i with clients := i.clients } = i := by cases i; rfl
 
